@@ -124,6 +124,13 @@ def replay_cases(recs):
             t.resid("series", dd)
             if not dd <= 1e-12:
                 t.fail("C08|AngularRate.update(series)|order-%s|not-the-partial-sum" % ("0-1" if K <= 1 else ">=2"), {"q": q, "w": w, "d": d, "order": K, "got": o[1], "want": want})
+            # the constructor route with the same method and order: row 1 is one step from q0
+            t.calls += 1
+            ob = core.outcome(lambda: np.asarray(F.AngularRate(gyr=np.tile(gyr, (3, 1)), q0=g_unit(q), Dt=dt, method="series", order=K).Q, dtype=float)[1])
+            if ob[0] != "ok":
+                t.fail("C08|AngularRate(gyr, series).Q|raises-%s" % ob[1], {"case": r, "err": ob[2]})
+            elif not maxdiff(ob[1], want) <= 1e-12:
+                t.fail("C08|AngularRate(gyr, series).Q|order-%s|not-the-partial-sum" % ("0-1" if K <= 1 else ">=2"), {"q": q, "w": w, "d": d, "order": K, "got": ob[1], "want": want})
         if len(t.samples) < 3 and kind not in [s.get("kind") for s in t.samples]:
             t.samples.append(r)
     return t
